@@ -83,6 +83,8 @@ func marshalYaml(v any) ([]byte, error) {
 		return marshalYamlList(v)
 	case []chord.Attribute:
 		return marshalYamlList(v)
+	case []chord.Chord:
+		return marshalYamlList(v)
 	case *ast.ChordList:
 		if v == nil {
 			break
